@@ -11,9 +11,10 @@ try:
 except Exception:
     results = {}
 REPO = os.environ.get('SEED_REPO', '/tmp/repo-seeds')
+mine = {}
 subprocess.run(['git', '-C', '/repo', 'worktree', 'remove', '--force', REPO], capture_output=True)
 assert subprocess.run(['git', '-C', '/repo', 'worktree', 'add', '-q', '--detach', REPO, 'HEAD']).returncode == 0
-ENV = dict(os.environ, VERIF_REPO=REPO, VERIF_EVIDENCE_DIR='/tmp/seed-evidence', VERIF_REPLAY_DIR='/tmp/seed-replays')
+ENV = dict(os.environ, VERIF_REPO=REPO, VERIF_EVIDENCE_DIR=REPO + '-evidence', VERIF_REPLAY_DIR=REPO + '-replays')
 for n in names:
     d = f'{HOME}/seeded/{n}'
     meta = json.load(open(f'{d}/meta.json')) if os.path.exists(f'{d}/meta.json') else {}
@@ -37,6 +38,13 @@ for n in names:
     finally:
         subprocess.run(['git', '-C', REPO, 'checkout', '--', '.'])
     results[n] = res
+    try:   # (another instance may be running on other seeds: merge, never overwrite)
+        cur = json.load(open(f'{HOME}/seeded/RESULTS.json'))
+    except Exception:
+        cur = {}
+    mine[n] = res
+    cur.update(mine)
+    results = cur
     json.dump(results, open(f'{HOME}/seeded/RESULTS.json', 'w'), indent=1)
 subprocess.run(['git', '-C', '/repo', 'worktree', 'remove', '--force', REPO], capture_output=True)
 lines = ['| seeded change | property | caught by (quick check, exit 1 + VIOLATION) | first report |', '|---|---|---|---|']
